@@ -99,6 +99,25 @@ def check_run(chk, cfg, mode, lines, keep):
         chk.fail("each step enters the sum once", case, f"{len(rec['ratio'])} ratios for {len(rec['beta'])} iterations", {**sig, "clause": "once"})
     if res["cfg"]["sampler"] != "minipcn_smc":
         return
+    # ---- a second fresh run on the SAME sampler object: its evidence is the sum over ITS iterations only ----------------
+    if int(cfg["seed"]) % 2 == 0:
+        r6 = smcrun.run_smc({**cfg, "seed": int(cfg["seed"]) + 11}, reuse=res)
+        chk.count("paired:second_run_same_object")
+        if r6["status"] == "done":
+            rec6 = c06.record_run(r6)
+            b6 = [0.0] + rec6["beta"]
+            if len(rec6["pops"]) == len(rec6["beta"]) + 1:
+                tot = math.fsum(c18.ref_step(rec6["pops"][t], b6[t], b6[t + 1])[0] for t in range(len(rec6["beta"])))
+                vtot = math.sqrt(math.fsum(c18.ref_step(rec6["pops"][t], b6[t], b6[t + 1])[1] for t in range(len(rec6["beta"]))))
+            else:
+                tot = vtot = float("nan")
+            z6, e6 = rec6["final"]["logZ"], rec6["final"]["logZerr"]
+            if not core.close(z6, tot, 1e-9, 1e-9 * (abs(tot) + 1)) or not core.close(e6, vtot, 1e-6, 1e-12):
+                chk.fail("evidence = sum of the recorded ratios", dict(case, second_run_on_same_sampler=True),
+                         f"second run on the same sampler object: evidence {z6!r} +- {e6!r}, sum over its own {len(rec6['beta'])} iterations recomputed from its "
+                         f"populations {tot!r} +- {vtot!r} ({len(rec6['pops'])} stored populations)", {**sig, "clause": "sum", "reuse": True})
+        else:
+            chk.fail("run total", dict(case, second_run_on_same_sampler=True), repr(r6.get("exc")), {**sig, "clause": "raise", "reuse": True})
     # ---- paired runs -------------------------------------------------------------------------
     for every in (1, 3):
         r2 = smcrun.run_smc({**cfg, "checkpoint_every": every})
